@@ -561,7 +561,9 @@ def run_c01_scene(spec):
     A, B, inp, spec2 = build_scene(spec)
     L = scene_L(A, B)
     tol = K_C01 * L
-    contract = "gjk.gjk[%s,%s]" % (tname(A), tname(B))
+    # the scene class is part of the name so that a known finding can be pinned to the class it was observed in
+    # (fam = placement family; 'large' = a feature size >= 30) and does not mask the same clause elsewhere
+    contract = "gjk.gjk[%s,%s;fam=%s%s]" % (tname(A), tname(B), spec["fam"], ",large" if max(A["size"], B["size"]) >= 30.0 else "")
     res, err = guarded(gjk.gjk, A["obj"], B["obj"], label=contract)
     rec = dict(contract=contract, family=spec["fam"], L=L, tol=tol)
     if err:
